@@ -17,7 +17,7 @@ legit := xbits:ybits:pbits for the interval the SPECIFICATION allows the call to
 of the vault) to now at the fee in force, computed by the harness's ghost which never reads the stamps (the driver keeps the same
 ghost, `Spec`; BAD if they disagree) — or `-`. Monitors on the REAL booked amounts, as for lockers (`Drv/LockerAccrual.lean`):
 `zero_time`, `zero_rate_window`, `accrued_interval`, `zero_rate`; suffix `_touched`: the vault was deposited into while the fee was
-zero (the code then loses the `BlockHeight = 0` flag: reproduced defect D36, notes/C18.md). -/
+zero (the code then loses the `BlockHeight = 0` flag: reproduced defect D46, notes/C18.md). -/
 namespace Comdex.Drv.VaultAccrualDrv
 open Comdex Comdex.Line Comdex.Accrual Comdex.VaultAccrual
 
@@ -192,7 +192,7 @@ def handle (st : St) (seq : String) (f : List String) : St × List String :=
     | some cur, some now, some h, some pb =>
       let (proj, legit) := splitLegit projL
       let (real, d) := settle seq "deposit" cur (toRes (msgDeposit cur ⟨now, h⟩ (ofBits pb))) o proj
-      -- also accepted in its repaired form (D36)
+      -- also accepted in its repaired form (D46)
       let d := if d.isEmpty then d else
         let (_, d2) := settle seq "deposit" cur (toRes (msgDepositFix cur ⟨now, h⟩ (ofBits pb))) o proj
         if d2.isEmpty then [] else d
